@@ -140,6 +140,10 @@ def oaep_value_rows(check, repo):
 
 def run(check, ctx):
     repo = ctx.repo
+    # the label is part of the cipher object's configuration: a mutable label handed in is copied, so that every later
+    # encrypt() / decrypt() of the object uses the label it was created with
+    from .c09_extra import retention_rule
+    retention_rule(check, repo, targets=[(OAEP, "PKCS1OAEP_Cipher", ("_label",))], floor=1)
     oaep_self = OBJ((OAEP, "PKCS1OAEP_Cipher"), _key=OBJ(n=N1024),
                     _hashObj=OBJ(digest_size=20), _label=b"", _mgf=UNK, _randfunc=UNK)
     run_row(check, repo, Row("oaep.enc.len", "C07", OAEP, "PKCS1OAEP_Cipher.encrypt",
